@@ -38,6 +38,155 @@ pub struct CacheCase {
     /// builder call order / decoy setters (bits 0-1 rotation, bit 2 decoys, bit 3 key extractor first)
     #[serde(default)]
     pub setter_order: u8,
+    /// instead of a simulated history: handles on one warm store are read from real OS threads
+    /// (see crate::stress)
+    #[serde(default)]
+    pub stress: Option<CacheStress>,
+}
+
+#[derive(Clone, Debug, Serialize, Deserialize)]
+pub struct CacheStress {
+    pub policy: u8,
+    pub shared: bool,
+    pub nkeys: u32,
+    /// capacity above the number of keys by this much (nothing is ever evicted)
+    pub spare: usize,
+    pub threads: usize,
+    pub iters: u32,
+}
+
+fn stress_strategy(tier: Tier) -> BoxedStrategy<CacheCase> {
+    let iters = match tier {
+        Tier::Quick => 4_000u32,
+        Tier::Thorough => 30_000,
+    };
+    (0u8..3, any::<bool>(), 1u32..=6, 0usize..=2, 2usize..=8)
+        .prop_map(move |(policy, shared, nkeys, spare, threads)| CacheCase {
+            policy,
+            max_size: nkeys as usize + spare,
+            ttl: None,
+            mode: if shared { 2 } else { 1 },
+            ops: vec![],
+            setter_order: 0,
+            stress: Some(CacheStress {
+                policy,
+                shared,
+                nkeys,
+                spare,
+                threads,
+                iters,
+            }),
+        })
+        .boxed()
+}
+
+/// Real-thread stress of one cache store: every key is stored once (sequentially), then several
+/// threads read all keys over and over through their own handles. Nothing expires, nothing is
+/// evicted (capacity >= number of keys), so every read is a hit: it returns the stored response
+/// and does not call the wrapped service.
+pub fn run_cache_stress(st: &CacheStress) -> Report {
+    use std::future::Future;
+    use std::sync::atomic::{AtomicU64, AtomicUsize, Ordering};
+    use std::sync::Arc;
+    let mut r = Report::default();
+    let inner_calls = Arc::new(AtomicU64::new(0));
+    let ic = inner_calls.clone();
+    let inner = tower::service_fn(move |req: Req| {
+        let serial = ic.fetch_add(1, Ordering::SeqCst) + 1;
+        async move { Ok::<Resp, SErr>(Resp { serial, req }) }
+    });
+    let policy = match st.policy {
+        0 => EvictionPolicy::Lru,
+        1 => EvictionPolicy::Lfu,
+        _ => EvictionPolicy::Fifo,
+    };
+    let cap = st.nkeys as usize + st.spare;
+    let waker = futures::task::noop_waker();
+    let mut cx = std::task::Context::from_waker(&waker);
+    let wrong = Arc::new(AtomicUsize::new(0));
+    let pending = Arc::new(AtomicUsize::new(0));
+    let nkeys = st.nkeys;
+    let iters = st.iters;
+    macro_rules! go {
+        ($mk:expr) => {{
+            // one handle per thread plus the one used for warming
+            let mut warm = $mk;
+            let mut stored = vec![0u64; nkeys as usize];
+            for k in 0..nkeys {
+                let _ = warm.poll_ready(&mut cx);
+                let mut f = Box::pin(warm.call(Req { id: k, key: k, tag: 1 }));
+                if let std::task::Poll::Ready(Ok(resp)) = f.as_mut().poll(&mut cx) {
+                    stored[k as usize] = resp.serial;
+                }
+            }
+            let stored = Arc::new(stored);
+            let handles = std::sync::Mutex::new((0..st.threads).map(|_| $mk).collect::<Vec<_>>());
+            let (w2, p2, s2) = (wrong.clone(), pending.clone(), stored.clone());
+            crate::stress::run_threads(st.threads, move |t| {
+                let mut svc = handles.lock().unwrap().pop().expect("one handle per thread");
+                let waker = futures::task::noop_waker();
+                let mut cx = std::task::Context::from_waker(&waker);
+                for i in 0..iters {
+                    let k = (t as u32 * 7 + i) % nkeys;
+                    let _ = svc.poll_ready(&mut cx);
+                    let mut f = Box::pin(svc.call(Req { id: 1000 + i, key: k, tag: 1 }));
+                    match f.as_mut().poll(&mut cx) {
+                        std::task::Poll::Ready(Ok(resp)) if resp.serial == s2[k as usize] => {}
+                        std::task::Poll::Ready(_) => {
+                            w2.fetch_add(1, Ordering::Relaxed);
+                        }
+                        std::task::Poll::Pending => {
+                            p2.fetch_add(1, Ordering::Relaxed);
+                        }
+                    }
+                }
+            })
+        }};
+    }
+    let panicked = if st.shared {
+        let layer = SharedCacheLayer::<Req, CKey, Resp>::builder()
+            .max_size(cap)
+            .eviction_policy(policy)
+            .key_extractor(|r: &Req| CKey(r.key))
+            .build();
+        go!(layer.layer(inner.clone()))
+    } else {
+        let layer = CacheLayer::<Req, CKey>::builder()
+            .max_size(cap)
+            .eviction_policy(policy)
+            .key_extractor(|r: &Req| CKey(r.key))
+            .build();
+        let base = layer.layer(inner.clone());
+        go!(base.clone())
+    };
+    let calls = inner_calls.load(Ordering::SeqCst);
+    let what = format!(
+        "{} threads x {} reads of {} warm keys through handles on one {} store (capacity {}, no TTL)",
+        st.threads,
+        st.iters,
+        st.nkeys,
+        if st.shared { "shared-layer" } else { "cloned-service" },
+        cap
+    );
+    if calls != st.nkeys as u64 {
+        r.fail(format!(
+            "{what}: the wrapped service was called {calls} times; each key was stored by its first request, every later read is a hit and calls it not at all ({} expected)",
+            st.nkeys
+        ));
+    }
+    let (w, p) = (wrong.load(Ordering::SeqCst), pending.load(Ordering::SeqCst));
+    if w != 0 || p != 0 {
+        r.fail(format!(
+            "{what}: {w} reads did not return the response stored for their key, {p} were not answered at their first poll"
+        ));
+    }
+    if let Some(pm) = panicked {
+        r.fail(format!("a cache call panicked on a stress thread: {pm}"));
+    }
+    r.nontrivial = true;
+    r.class("real_thread_stress");
+    r.trace = json!({"inner_calls": calls, "wrong": w, "pending": p, "stress": st});
+    r
 }
 
 fn case_strategy(tier: Tier) -> BoxedStrategy<CacheCase> {
@@ -67,6 +216,7 @@ fn case_strategy(tier: Tier) -> BoxedStrategy<CacheCase> {
             ttl,
             mode,
             setter_order,
+            stress: None,
             ops: ops
                 .into_iter()
                 .map(|o| match o {
@@ -599,7 +749,7 @@ impl Property for C10 {
         "C10"
     }
     fn strategy(&self, tier: Tier) -> BoxedStrategy<CacheCase> {
-        case_strategy(tier)
+        prop_oneof![800 => case_strategy(tier), 1 => stress_strategy(tier)].boxed()
     }
     fn budget(&self, tier: Tier) -> (u32, usize) {
         match tier {
@@ -608,6 +758,9 @@ impl Property for C10 {
         }
     }
     fn run(&self, case: &CacheCase) -> Report {
+        if let Some(st) = &case.stress {
+            return run_cache_stress(st);
+        }
         let v = run_cache(case);
         let mut r = Report::default();
         if let Some(m) = &v.violation {
@@ -623,7 +776,7 @@ impl Property for C10 {
         r
     }
     fn rule(&self) -> String {
-        "proptest-generated histories: policy (LRU/LFU/FIFO), max_size 1-4, TTL none / 20-100 ms / long, store private, cloned or shared between two services of one SharedCacheLayer, 0-80/500 ops over 2-7 keys: request(key) with scripted inner ok/error and latency 0-30 ms (misses on one key overlap), advance by ms or exactly TTL-1/TTL/TTL+1. Every inner response carries a fresh serial. Oracle: reference cache as a set of worlds (LFU ties: any minimum-count victim; expired entries purged before an eviction or not; exactly-at-TTL read hit or miss; LFU counts updates or not): not calling inner requires some world with a live entry whose serial is the one returned, for that key, in the same instant; calling inner requires some world without a live entry; a miss is called once and the caller gets its own result; only Ok results are stored. Non-trivial: an eviction at capacity together with an expiry-then-reinsert, an update of a present key, an LFU tie or a read exactly at the TTL; distinct by hash of the case".into()
+        "proptest-generated histories: policy (LRU/LFU/FIFO), max_size 1-4, TTL none / 20-100 ms / long, store private, cloned or shared between two services of one SharedCacheLayer, 0-80/500 ops over 2-7 keys: request(key) with scripted inner ok/error and latency 0-30 ms (misses on one key overlap), advance by ms or exactly TTL-1/TTL/TTL+1; about one case in 800 is instead a real-thread stress (2-8 OS threads x 4000/30000 reads of 1-6 warm keys through their own handles on one store, nothing expires or is evicted: zero further inner calls, every read returns the stored response). Every inner response carries a fresh serial. Oracle: reference cache as a set of worlds (LFU ties: any minimum-count victim; expired entries purged before an eviction or not; exactly-at-TTL read hit or miss; LFU counts updates or not): not calling inner requires some world with a live entry whose serial is the one returned, for that key, in the same instant; calling inner requires some world without a live entry; a miss is called once and the caller gets its own result; only Ok results are stored. Non-trivial: an eviction at capacity together with an expiry-then-reinsert, an update of a present key, an LFU tie or a read exactly at the TTL; distinct by hash of the case".into()
     }
     fn assumptions(&self) -> Vec<String> {
         vec![
